@@ -349,14 +349,22 @@ func quadsStr(axes [3][]float64, tris []*model3d.Triangle) (string, string) {
 	return strings.Join(out, ";"), "1"
 }
 
+// capN bounds the size of the more expensive batches in the thorough tier (8 seeds x 2500).
+func capN(n, max int) int {
+	if n > max {
+		return max
+	}
+	return n
+}
+
 func runDc(c *hlib.Ctx) {
 	batch(c, "dc", c.N, func() { dcCase(c, false) })
 	// small lattices, a round body with zero-thickness features at lattice positions, Repair on:
 	// many singular edges whose ends are clipped to the cube margin
 	batch(c, "dcz", 3*c.N, func() { dcCase(c, true) })
 	// round bodies in general position on a decimal lattice, Repair on
-	batch(c, "dcb", c.N/4, func() { dcBlobCase(c) })
-	batch(c, "dcn", c.N/4, func() { dcBlobNeighbourCase(c) })
+	batch(c, "dcb", capN(c.N/8, 100), func() { dcBlobCase(c) })
+	batch(c, "dcn", capN(c.N/8, 100), func() { dcBlobNeighbourCase(c) })
 }
 
 // dcBlobCase: round bodies in GENERAL position on a decimal lattice (delta 0.1 ...): unions of three balls and
